@@ -1,2 +1,164 @@
-/-! Driver for C18 (stub: not built yet). -/
-def main : IO Unit := pure ()
+import Drivers.Proto
+import PymocaVerif.Model.VecExpand
+/-! Driver for C18: names, attribute element selection, output/delay renaming and the residual of
+    the expanded equations, all computed by `PymocaVerif.Model.VecExpand`. -/
+open Lean Drivers PymocaVerif.VecExpand
+
+def cs (s : String) : List Char := s.toList
+def sc (l : List Char) : String := String.ofList l
+
+def parseLevel (j : Json) : Except String Level :=
+  match j with
+  | .null => pure none
+  | _ => do
+    let a ← j.getArr?
+    let ds ← a.toList.mapM (·.getNat?)
+    pure (some ds)
+
+def parseLevels (j : Json) : Except String MShape := do
+  let a ← j.getArr?
+  a.toList.mapM parseLevel
+
+def parseNats (j : Json) : Except String (List Nat) := do
+  let a ← j.getArr?
+  a.toList.mapM (·.getNat?)
+
+def parseInts (j : Json) : Except String (List Int) := do
+  let a ← j.getArr?
+  a.toList.mapM (·.getInt?)
+
+partial def parseNList (j : Json) : Except String NList :=
+  match j with
+  | .arr a => do
+    let xs ← a.toList.mapM parseNList
+    pure (.node xs)
+  | _ => do
+    let v ← j.getInt?
+    pure (.leaf v)
+
+def namesOfVar (j : Json) : Except String (Except String (List (List Char))) := do
+  let name ← getStr j "name"
+  let delay ← getBool j "delay"
+  if delay then
+    let shape ← parseNats (← getObj j "shape")
+    pure (.ok (expandDelayNames (cs name) shape))
+  else
+    let ms ← parseLevels (← getObj j "levels")
+    if needsExpand ms then pure (expandNames (cs name) ms) else pure (.ok [cs name])
+
+/-- JSON AST → `Expr`; `dimsOf` gives the iterator shape of a declared symbol -/
+partial def parseExpr (dimsOf : String → Option (List Nat)) (j : Json) : Except String Expr := do
+  let a ← j.getArr?
+  let tag ← (a[0]?.getD Json.null).getStr?
+  let arg (i : Nat) : Json := a[i]?.getD Json.null
+  match tag with
+  | "var" => do
+    let n ← (arg 1).getStr?
+    pure (.var (cs n))
+  | "el" => do
+    let n ← (arg 1).getStr?
+    let idx ← parseNats (arg 2)
+    match dimsOf n with
+    | some ds => pure (.el (.var (cs n)) (elemPos ds idx))
+    | none => throw s!"unknown symbol {n}"
+  | "lit" => do
+    let v ← parseInts (arg 1)
+    pure (.const ⟨v.length, 1, v⟩)
+  | "num" => do
+    let k ← (arg 1).getInt?
+    pure (.const ⟨1, 1, [k]⟩)
+  | "ones" => do
+    let r ← (arg 1).getNat?
+    let c ← (arg 2).getNat?
+    pure (.const ⟨r, c, List.replicate (r * c) 1⟩)
+  | "fill" => do
+    let k ← (arg 1).getInt?
+    let r ← (arg 2).getNat?
+    let c ← (arg 3).getNat?
+    pure (.const ⟨r, c, List.replicate (r * c) k⟩)
+  | "add" => do pure (.add (← parseExpr dimsOf (arg 1)) (← parseExpr dimsOf (arg 2)))
+  | "sub" => do pure (.sub (← parseExpr dimsOf (arg 1)) (← parseExpr dimsOf (arg 2)))
+  | "eq" => do pure (.sub (← parseExpr dimsOf (arg 1)) (← parseExpr dimsOf (arg 2)))
+  | "emul" => do pure (.emul (← parseExpr dimsOf (arg 1)) (← parseExpr dimsOf (arg 2)))
+  | "smul" => do
+    let k ← (arg 1).getInt?
+    pure (.smul k (← parseExpr dimsOf (arg 2)))
+  | "neg" => do pure (.neg (← parseExpr dimsOf (arg 1)))
+  | t => throw s!"bad-expr {t}"
+
+def jints (xs : List Int) : Json := Json.arr (xs.map fun (x : Int) => Json.num (JsonNumber.fromInt x)).toArray
+
+def handle (req : Json) : Except String Json := do
+  let op ← getStr req "op"
+  match op with
+  | "expand.names" => do
+    let vars ← getArr req "vars"
+    let mut out : List String := []
+    for v in vars.toList do
+      match ← namesOfVar v with
+      | .ok ns => out := out ++ ns.map sc
+      | .error e => return Json.mkObj [("ok", true), ("error", Json.str e)]
+    pure (Json.mkObj [("ok", true), ("names", jstrs out)])
+  | "expand.attr" => do
+    let dims ← parseNats (← getObj req "dims")
+    let attr ← getObj req "attr"
+    let kind ← getStr attr "kind"
+    let mode ← getStr req "mode"
+    let idxs := ndindex dims
+    match kind with
+    | "list" => do
+      let v ← parseNList (← getObj attr "v")
+      let mut vals : List Json := []
+      for idx in idxs do
+        match (if mode == "trailing" then selListTrailing v idx else selListStrict v idx) with
+        | .ok (.leaf x) => vals := vals ++ [Json.num (JsonNumber.fromInt x)]
+        | .ok (.node _) => vals := vals ++ [Json.str "list"]
+        | .error e => return Json.mkObj [("ok", true), ("error", Json.str e)]
+      pure (Json.mkObj [("ok", true), ("values", Json.arr vals.toArray)])
+    | "dm" => do
+      let shape ← parseNats (← getObj attr "shape")
+      let r := shape.getD 0 1
+      let c := shape.getD 1 1
+      let mut vals : List Json := []
+      for idx in idxs do
+        match selDM r c idx with
+        | .ok p => vals := vals ++ [Json.num (JsonNumber.fromNat p)]
+        | .error e => return Json.mkObj [("ok", true), ("error", Json.str e)]
+      pure (Json.mkObj [("ok", true), ("positions", Json.arr vals.toArray)])
+    | k => throw s!"bad-attr-kind {k}"
+  | "expand.outputs" => do
+    let outs ← (← getArr req "outputs").toList.mapM (·.getStr?)
+    let dels ← (← getArr req "delay").toList.mapM (·.getStr?)
+    let blocksJ ← getArr req "blocks"
+    let blocks ← blocksJ.toList.mapM fun b => do
+      let a ← b.getArr?
+      let n ← (a[0]?.getD Json.null).getStr?
+      let ns ← (← (a[1]?.getD Json.null).getArr?).toList.mapM (·.getStr?)
+      pure (cs n, ns.map cs)
+    let o := spliceAll (outs.map cs) blocks
+    let d := delayMoveAll (dels.map cs) (blocks.filter fun b => b.1 ∈ dels.map cs)
+    pure (Json.mkObj [("ok", true), ("outputs", jstrs (o.map sc)), ("delay", jstrs (d.map sc))])
+  | "expand.residual" => do
+    let declsJ ← getArr req "decls"
+    let decls ← declsJ.toList.mapM fun d => do
+      let n ← getStr d "name"
+      let ms ← parseLevels (← getObj d "levels")
+      pure (Decl.ofName (cs n) ms)
+    let dimsOf : String → Option (List Nat) := fun n =>
+      (decls.find? fun d => d.name = cs n).map (·.dims)
+    let eqs ← (← getArr req "eqs").toList.mapM (parseExpr dimsOf)
+    let point ← getObj req "point"
+    let mut bind : List (List Char × IMat) := []
+    for d in decls do
+      let v ← parseInts (← getObj point (sc d.name))
+      let (r, c) := mxShape d.dims
+      bind := bind ++ [(d.name, (⟨r, c, v⟩ : IMat))]
+    let env : Env := fun n => bind.lookup n
+    let tbl := tableOf decls
+    match residual env eqs, residual (renameEnv decls env) (eqs.map (expandE tbl)) with
+    | some u, some e => pure (Json.mkObj [("ok", true), ("unexpanded", jints u), ("expanded", jints e)])
+    | none, _ => pure (Json.mkObj [("ok", true), ("error", "unexpanded-not-evaluable")])
+    | _, none => pure (Json.mkObj [("ok", true), ("error", "expanded-not-evaluable")])
+  | o => throw s!"unknown-op {o}"
+
+def main : IO Unit := serve handle
